@@ -199,6 +199,7 @@ LEVEL_TEXT = (
     "Bounded-exhaustive model checking with reference-model conformance: for every cell (kind x heavyness x process x PTO x M x Q2 x grid) and every TMC mode the corrected operator is computed by the real code on an x lattice "
     "built from the grid's own shortcuts (nodes, node(1+1e-9), x whose Nachtmann xi sits 1e-9 on either side of a node, block interiors, x -> 1) and every order key is compared with the published formula evaluated by an independent "
     "reference on the uncorrected operators of a TMC=0 run (node weights of the h2, g2, h3, k1, k2 integrals by reference quadrature on the reference basis); M=0 and M=1e-4 probe continuity, and requests whose xi leaves the grid must raise ValueError."
+    " An options sub-lattice keeps the scale-variation keys (every order key must obey the formula) and uses anti-lepton beams, polarisation and nuclear targets."
 )
 LEVEL_NOTE = (
     "Trusted: ref_tmc (my transcription of the published formulas for the library's normalised kinds), ref_basis, SciPy quad; the uncorrected operators are taken from a TMC=0 run of the same code (C01 decides those). "
